@@ -15,6 +15,7 @@ mod c14;
 mod c15;
 mod c16;
 mod c17;
+mod c18;
 mod c19;
 mod c20;
 mod common;
@@ -51,6 +52,7 @@ fn main() {
     }
     if args[1] == "setup" {
         probe::setup();
+        c18::setup();
         return;
     }
     let tier = args[2].as_str();
@@ -72,6 +74,9 @@ fn main() {
         "C15" => c15::run(tier),
         "C16" => c16::run(tier),
         "C17" => c17::run(tier),
+        "C18" => c18::run(tier),
+        "c18-history" => c18::history_child(tier),
+        "c18-trace" => c18::trace_child(),
         "C19" => c19::run(tier),
         "c19-child" => c19::child_main(tier.parse().unwrap(), &args[3], args.get(4).map(|s| s.as_str())),
         "C20" => c20::run(tier),
